@@ -112,6 +112,10 @@ func VerifC12NodeInfo() {
 	cur, prev := vf.X25519Priv(1), vf.X25519Priv(2)
 	rec := &NodeInformation{Id: "node-a", CertificatePublicKeyPkix: vf.Pkix(0), ServerEncryptionPrivateKeyBytes: cur, ServerEncryptionPrivateKeyType: KEYTYPE_X25519,
 		EncryptionPublicKeyBytes: vf.X25519Pub(3), EncryptionPublicKeyType: KEYTYPE_X25519}
+	hasKey := vf.Bool("has-server-encryption-key") // a record may not carry one (yet): it is still a wrapped record
+	if !hasKey {
+		rec.ServerEncryptionPrivateKeyBytes = nil
+	}
 	hasPrev := vf.Bool("has-previous-key")
 	if hasPrev {
 		rec.PreviousEncryptionKey = &EncryptionKey{KeyId: "old", PrivateKeyPkcs8: prev, PrivateKeyType: KEYTYPE_X25519}
@@ -122,11 +126,13 @@ func VerifC12NodeInfo() {
 	st := &vfTStore{}
 	err := rec.Store(ctx, st, nodeenrollment.WithStorageWrapper(vfWrapper()))
 	vf.Assert("store-ok", err == nil)
-	vf.Assert("caller-record-not-modified", vf.EqBytes(rec.ServerEncryptionPrivateKeyBytes, cur))
+	if hasKey {
+		vf.Assert("caller-record-not-modified", vf.EqBytes(rec.ServerEncryptionPrivateKeyBytes, cur))
+	}
 	vf.Assert("no-private-key-in-clear", vf.SecretFree(st.last, cur))
 	vf.Assert("nodeinfo-previous-private-key-not-in-clear", vf.SecretFree(st.last, prev))
 	which := vf.Int("loader-wrapper", 0, 2)
-	transplant := vf.Bool("sealed-key-transplanted-from-another-record")
+	transplant := hasKey && vf.Bool("sealed-key-transplanted-from-another-record")
 	if transplant {
 		other := &NodeInformation{Id: "node-b", CertificatePublicKeyPkix: vf.Pkix(1), ServerEncryptionPrivateKeyBytes: vf.X25519Priv(4), ServerEncryptionPrivateKeyType: KEYTYPE_X25519}
 		if err := other.Store(ctx, st, nodeenrollment.WithStorageWrapper(vfWrapper())); err != nil {
@@ -147,9 +153,13 @@ func VerifC12NodeInfo() {
 	got, lerr := LoadNodeInformation(ctx, st, "node-a", vfLoadOpts(which)...)
 	if lerr == nil {
 		vf.Reach("loaded")
-		vf.Assert("loads-only-with-the-same-wrapper", which == 0)
+		// a wrapped record always needs a wrapper; which wrapper can only be told from a sealed field, so a record
+		// that carries none opens under any wrapper (the library deliberately does not compare wrapper key IDs)
+		vf.Assert("loads-only-with-the-same-wrapper", vf.Or(which == 0, vf.And(which == 2, !hasKey)))
 		vf.Assert("transplanted-field-does-not-open", !transplant)
-		vf.Assert("round-trip-private-key", vf.EqBytes(got.ServerEncryptionPrivateKeyBytes, cur))
+		if hasKey {
+			vf.Assert("round-trip-private-key", vf.EqBytes(got.ServerEncryptionPrivateKeyBytes, cur))
+		}
 		vf.Assert("round-trip-public-parts", vf.And(vf.EqBytes(got.CertificatePublicKeyPkix, rec.CertificatePublicKeyPkix), vf.EqBytes(got.EncryptionPublicKeyBytes, rec.EncryptionPublicKeyBytes)))
 		if hasPrev {
 			vf.Assert("round-trip-previous-key", vf.EqBytes(got.PreviousEncryptionKey.PrivateKeyPkcs8, prev))
@@ -157,6 +167,7 @@ func VerifC12NodeInfo() {
 	} else {
 		vf.Reach("load-refused")
 		vf.Assert("same-wrapper-loads", vf.Not(vf.And(which == 0, !transplant)))
+		vf.Assert("any-wrapper-opens-a-record-without-sealed-fields", vf.Not(vf.And(which == 2, !hasKey)))
 	}
 }
 
